@@ -2,6 +2,7 @@ import Ivg.Lemmas.Decoder2
 import Ivg.Gen.Tie.DrawOps
 import Ivg.Gen.Tie.DecodeErrors
 import Ivg.Gen.Tie.Magic
+import Ivg.Gen.Tie.PrinterSites
 import Ivg.Obligations
 /-!
 # C11 — the disassembler agrees with the decoder
@@ -138,4 +139,5 @@ end Ivg.Props.C11
   Ivg.Props.C11.instruction_lines_eq_calls, Ivg.Props.C11.values_agree,
   Ivg.Props.C11.instruction_values_agree, Ivg.Props.C11.traversal_values_agree,
   Ivg.Props.C11.repeat_count_agrees,
-  Ivg.Gen.Tie.drawOps_tie, Ivg.Gen.Tie.magic_tie, Ivg.Gen.Tie.decodeErrors_tie]
+  Ivg.Gen.Tie.drawOps_tie, Ivg.Gen.Tie.magic_tie, Ivg.Gen.Tie.decodeErrors_tie,
+  Ivg.Gen.Tie.printerSites_tie, Ivg.Gen.Tie.printerSites_windows_tie]
